@@ -105,8 +105,12 @@ theorem TInvN.merge (hT : TInvN W seen cls s) {r : Req} {G : Forest} (hr : NestR
     intro i0 i' hg
     obtain ⟨p, hp, hu⟩ := hT.keys (GTy.mk' r.2.1 (.interface i0)) rfl (by rw [hg]; rfl)
     exact absurd (hu.trans (gty_uid_of_hasId _ _ rfl)) (hfresh p hp)
+  have hish : ∀ i0 ty, alGet s.agg.remapped (GTy.mk' r.2.1 (.interface i0)) = some ty → ∃ i', ty = .interface i' := by
+    intro i0 ty hg
+    obtain ⟨p, hp, hu⟩ := hT.keys (GTy.mk' r.2.1 (.interface i0)) rfl (by rw [hg]; rfl)
+    exact absurd (hu.trans (gty_uid_of_hasId _ _ rfl)) (hfresh p hp)
   have hNS : NState W r.2.1 (ImpIds s) e s F :=
-    ⟨⟨hT.ainv, hT.iwf, fun j hj => impIds_lt hT hj, hik⟩, hT.nested, ⟨en, hget⟩, ⟨ti, hti, m, hm⟩, hFnd⟩
+    ⟨⟨hT.ainv, hT.iwf, fun j hj => impIds_lt hT hj, hik, hish⟩, hT.nested, ⟨en, hget⟩, ⟨ti, hti, m, hm⟩, hFnd⟩
   obtain ⟨R, hN1, hst, hmeet⟩ := mergeInterface_nest hW hr.sane _ (ImpIds s) e i s s1 F G d hNS hsrc hGs hr.nd h
   have hids : ∀ j, ImpIds s1 j ↔ ImpIds s j := fun j => by simp only [ImpIds, hst.imports]
   have hfr : Frame (ImpIds s) s.agg.types s1.agg.types := hst.frame ⟨en, hget⟩
@@ -196,7 +200,11 @@ theorem TInvN.fresh (hT : TInvN W seen cls s) {r : Req} {G : Forest} (hr : NestR
     intro i0 i' hg
     obtain ⟨p, hp, hu⟩ := hT.keys (GTy.mk' r.2.1 (.interface i0)) rfl (by rw [hg]; rfl)
     exact absurd (hu.trans (gty_uid_of_hasId _ _ rfl)) (hfresh p hp)
-  have hNI : NI W r.2.1 (ImpIds s) s := ⟨hT.ainv, hT.iwf, fun j hj => impIds_lt hT hj, hik⟩
+  have hish : ∀ i0 ty, alGet s.agg.remapped (GTy.mk' r.2.1 (.interface i0)) = some ty → ∃ i', ty = .interface i' := by
+    intro i0 ty hg
+    obtain ⟨p, hp, hu⟩ := hT.keys (GTy.mk' r.2.1 (.interface i0)) rfl (by rw [hg]; rfl)
+    exact absurd (hu.trans (gty_uid_of_hasId _ _ rfl)) (hfresh p hp)
+  have hNI : NI W r.2.1 (ImpIds s) s := ⟨hT.ainv, hT.iwf, fun j hj => impIds_lt hT hj, hik, hish⟩
   cases fuel with
   | zero => simp [remapKind, run_apanic] at h
   | succ fuel =>
